@@ -33,6 +33,8 @@ impl<Job> Drop for JobBroker<Job> {
             "{}: Dropped, closing the market.",
             std::thread::current().name().unwrap_or_default()
         );
+        #[cfg(getong_stateright_verif)]
+        crate::verif::trace(crate::verif::TR_DROP, 0, 0);
         market.open = false;
         market.job_batches.clear();
         market.open_count = market.open_count.saturating_sub(1);
@@ -76,6 +78,10 @@ where
                         let now = SystemTime::now();
                         if closing_time < now {
                             log::debug!("Reached timeout, triggering shutdown");
+                            #[cfg(getong_stateright_verif)]
+                            if market.open {
+                                crate::verif::trace(crate::verif::TR_TIMEOUT, 0, 0);
+                            }
                             market.open = false;
                         }
                         if !market.open {
@@ -98,11 +104,17 @@ impl<Job> JobBroker<Job> {
     /// Returns an empty result if there are no more jobs coming.
     pub fn pop(&mut self) -> VecDeque<Job> {
         let mut market = self.market.lock();
+        #[cfg(getong_stateright_verif)]
+        let mut woke = 0u64;
         if !market.open {
+            #[cfg(getong_stateright_verif)]
+            crate::verif::trace(crate::verif::TR_POP_EMPTY, 1, 0);
             return VecDeque::new();
         }
         loop {
             if let Some(jobs) = market.job_batches.pop() {
+                #[cfg(getong_stateright_verif)]
+                crate::verif::trace(crate::verif::TR_POP_GOT, jobs.len() as u64, woke);
                 log::trace!(
                     "{}: Got jobs. Working.",
                     std::thread::current().name().unwrap_or_default()
@@ -118,6 +130,8 @@ impl<Job> JobBroker<Job> {
                         "{}: No jobs. Last running thread.",
                         std::thread::current().name().unwrap_or_default()
                     );
+                    #[cfg(getong_stateright_verif)]
+                    crate::verif::trace(crate::verif::TR_POP_EMPTY, 0, woke);
                     self.has_new_jobs.notify_all();
                     market.open = false;
                     return VecDeque::new();
@@ -128,8 +142,14 @@ impl<Job> JobBroker<Job> {
                     market.open_count
                 );
                 #[cfg(getong_stateright_verif)]
+                crate::verif::trace(crate::verif::TR_POP_PARK, 0, woke);
+                #[cfg(getong_stateright_verif)]
                 crate::verif::market_event(crate::verif::MarketEvent::Park);
                 self.has_new_jobs.wait(&mut market);
+                #[cfg(getong_stateright_verif)]
+                {
+                    woke = 1;
+                }
                 #[cfg(getong_stateright_verif)]
                 crate::verif::market_event(crate::verif::MarketEvent::Wake);
                 market.open_count += 1;
@@ -141,8 +161,12 @@ impl<Job> JobBroker<Job> {
     pub fn push(&mut self, jobs: VecDeque<Job>) {
         let mut market = self.market.lock();
         if !market.open {
+            #[cfg(getong_stateright_verif)]
+            crate::verif::trace(crate::verif::TR_PUSH, jobs.len() as u64, 1);
             return;
         }
+        #[cfg(getong_stateright_verif)]
+        crate::verif::trace(crate::verif::TR_PUSH, jobs.len() as u64, 0);
         market.job_batches.push(jobs);
         log::trace!(
             "{}: Pushing jobs. running={}",
@@ -158,9 +182,13 @@ impl<Job> JobBroker<Job> {
         let mut market = self.market.lock();
         if !market.open {
             // remove any jobs to be done
+            #[cfg(getong_stateright_verif)]
+            crate::verif::trace(crate::verif::TR_SPLIT_CLOSED, jobs.len() as u64, 0);
             jobs.clear();
             return;
         }
+        #[cfg(getong_stateright_verif)]
+        let len_before = jobs.len() as u64;
         let pieces = 1 + std::cmp::min(
             market.thread_count.saturating_sub(market.open_count),
             jobs.len(),
@@ -178,9 +206,13 @@ impl<Job> JobBroker<Job> {
             if to_share.is_empty() {
                 continue;
             }
+            #[cfg(getong_stateright_verif)]
+            crate::verif::trace(crate::verif::TR_SPLIT_PIECE, to_share.len() as u64, 0);
             market.job_batches.push(to_share);
             self.has_new_jobs.notify_one();
         }
+        #[cfg(getong_stateright_verif)]
+        crate::verif::trace(crate::verif::TR_SPLIT, len_before, jobs.len() as u64);
     }
 
     /// See whether the market has stopped trading: a worker finished or panicked, or the timeout
